@@ -558,6 +558,7 @@ func (t *TLG) Probe(fn *ssa.Function, visit func(in ssa.Instruction, eval func(s
 
 type fnAn struct {
 	t            *TLG
+	errBusy      map[ssa.Value]bool
 	fn           *ssa.Function
 	sizes        types.Sizes
 	in           map[*ssa.BasicBlock]tstate
@@ -2285,6 +2286,16 @@ func isErrorType(t types.Type) bool {
 // errNonNil: the error value is certainly non-nil here: freshly built, wrapped
 // into the interface from a concrete value, or tested against nil on the way.
 func (a *fnAn) errNonNil(v ssa.Value, st tstate) bool {
+	// loop-carried error variables (err = phi(err, e)) refer back to themselves: a value that is
+	// being decided further up the stack proves nothing about itself
+	if a.errBusy[v] {
+		return false
+	}
+	if a.errBusy == nil {
+		a.errBusy = map[ssa.Value]bool{}
+	}
+	a.errBusy[v] = true
+	defer delete(a.errBusy, v)
 	switch x := v.(type) {
 	case *ssa.Const:
 		return false
@@ -2317,6 +2328,20 @@ func (a *fnAn) errNonNil(v ssa.Value, st tstate) bool {
 		// a helper of the module that only ever builds errors: unknownTagError(kind, tag)
 		if g := x.Common().StaticCallee(); g != nil && a.t.alwaysErr(core.Origin(g), 0) {
 			return true
+		}
+		// ... or a local function literal that does: syntaxErr := func() error { return d.error(..) }
+		fv := x.Common().Value
+		if ld, ok := fv.(*ssa.UnOp); ok && ld.Op == token.MUL {
+			if al, ok := ld.X.(*ssa.Alloc); ok {
+				if sv := singleStore(al); sv != nil {
+					fv = sv
+				}
+			}
+		}
+		if mc, ok := fv.(*ssa.MakeClosure); ok {
+			if g, ok := mc.Fn.(*ssa.Function); ok && a.t.alwaysErr(g, 0) {
+				return true
+			}
 		}
 	case *ssa.UnOp:
 		// a package-level sentinel: var errX = errors.New(...)
